@@ -10,6 +10,7 @@ import (
 	"path/filepath"
 	"sort"
 	"strconv"
+	"strings"
 	"sync"
 	"time"
 
@@ -111,16 +112,18 @@ type live struct {
 	bvMu      sync.Mutex
 	nBuilt    int
 
-	closed       bool
-	generation   int // store process generation (restarts)
-	tasksBusy    int
-	refreshes    int
-	cancellable  map[int]context.CancelFunc // in-flight explicit refreshes
-	refreshSeq   int
-	coalesceFrom int64 // requests before this stamp belong to an earlier process
-	epochSnap    map[string]bool
-	epochSnapAt  int64
-	lastRefresh  struct {
+	closed          bool
+	generation      int // store process generation (restarts)
+	tasksBusy       int
+	refreshes       int
+	cancellable     map[int]context.CancelFunc // in-flight explicit refreshes
+	refreshSeq      int
+	callTask        string
+	callInvokeStamp int64 // set while an explicit refresh's result is judged
+	coalesceFrom    int64 // requests before this stamp belong to an earlier process
+	epochSnap       map[string]bool
+	epochSnapAt     int64
+	lastRefresh     struct {
 		ok    bool
 		start int64
 		end   int64
@@ -632,6 +635,7 @@ func (l *live) refresh() {
 	}
 	known := l.epochSnap
 	w.Tracef("refresh (deadline %v)", d)
+	invoked := w.StampNow()
 	st := w.Store
 	w.Spawn("refresh", func(*kernel.Task) {
 		err := st.Refresh(ctx)
@@ -640,7 +644,10 @@ func (l *live) refresh() {
 		w.callReturn()
 		l.tasksBusy--
 		w.Tracef("refresh returned %v", err)
+		l.callInvokeStamp = invoked
+		l.callTask = w.S.CurTask().Name
 		l.afterRound(known, epoch, w.StampNow(), err, false)
+		l.callInvokeStamp = 0
 	})
 }
 
@@ -669,6 +676,22 @@ func (l *live) afterRound(knownAtStart map[string]bool, _ int64, end int64, err 
 	}
 	w.S.Probe("round-ok")
 	l.absorb()
+	if !poller && l.callInvokeStamp > 0 {
+		// "... and the cache holds the same": if the round this call waited
+		// for wrote the cache and that write failed, the call must not report
+		// success. (Only when no other round was active after the failed
+		// write, so that the call can only have got that round's result.)
+		w.Cache.mu.Lock()
+		writes := append([]CacheWrite(nil), w.Cache.Writes...)
+		w.Cache.mu.Unlock()
+		for _, cw := range writes {
+			// the round this call itself led runs in a child goroutine of
+			// the calling task; its result is what the call returns
+			if cw.Err && cw.Stamp > l.callInvokeStamp && cw.Stamp < end && strings.HasPrefix(cw.Task, l.callTask+"/") {
+				l.fail("fresh", "Refresh returned nil although the cache write of the round it led failed (write at stamp %d by %s): the cache does not hold what the store now serves", cw.Stamp, cw.Task)
+			}
+		}
+	}
 	for _, n := range SortedKeys(knownAtStart) {
 		v, still := l.prevDoc[n]
 		if !still {
